@@ -23,10 +23,13 @@ struct Params {
 fn request(c: usize, j: usize) -> Vec<Vec<u8>> {
     // REQ-style: delimiter + payload of 1..3 frames incl. empty frames
     let tag = format!("c{}r{}", c, j).into_bytes();
-    match (c + j) % 3 {
-        0 => vec![vec![], tag],
+    // (a payload that ENDS with an empty frame comes first: its last bytes on a connection are the header of a
+    // zero-length frame, with nothing behind them to push a parked message out)
+    match (c * 2 + j) % 4 {
+        0 => vec![vec![], tag, vec![]],
         1 => vec![vec![], tag, vec![], b"x".to_vec()],
-        _ => vec![vec![], vec![], tag],
+        2 => vec![vec![], vec![], tag],
+        _ => vec![vec![], tag],
     }
 }
 
